@@ -296,22 +296,27 @@ def _cfg(params, kill_at, idle_kill):
                 calls=calls, use_with=params.get("use_with", False), kill_at=kill_at, hooks=hooks)
 
 
-def ob_kill(kill_at: int, idle: bool, pos0: int, pk: int) -> bool:
+def ob_kill(kill_at: int, idle: bool, pos0: int, pk: int, pos1: int) -> bool:
     """
     pre: 0 <= kill_at <= 7
-    pre: -1 <= pos0 <= 900
+    pre: -1 <= pos0 <= 900 and -1 <= pos1 <= 900
     pre: 0 <= pk <= 0
     post: _
     """
     H.enter()
     steps = _BASE["steps"]
-    H.assume(pos0 <= steps)
+    H.assume(pos0 <= steps and pos1 <= steps)
+    if H.P("K", 1) < 2:
+        H.assume(pos1 == -1)
+    else:
+        H.assume(pos1 == -1 or (pos0 >= 0 and pos1 > pos0 and pos1 % 4 == 0))
+    p1 = H.select_bisect(pos1, -1, steps)
     ka, idl, p0, pkv = H.select(kill_at, 0, 7), bool(idle), H.select_bisect(pos0, -1, steps), 0
     if idl:
         H.assume(kill_at == 7)          # the idle fault replaces the in-flight one
     with H.native():
         from joblib.externals.loky.process_executor import TerminatedWorkerError
-        pre = [(p0, 0)] if p0 >= 0 else []
+        pre = [(p, 0) for p in (p0, p1) if p >= 0]
         o = parlib.run(_cfg(H.PARAMS, None if idl else ka, idl), dict(preempt=pre, picks=[pkv]))
         probs = []
         if o.hang:
@@ -361,7 +366,8 @@ def obligations(tier, seed):
                 "bounds": "previous / requested workers 1..4, broken, shut down, manager thread started, same arguments or not"})
     for ra, uw in [("list", False), ("list", True), ("generator", False)]:
         obs.append({"name": "kill/%s/with=%s" % (ra, uw), "fn": "ob_kill", "mode": "S",
-                    "params": {"kill_cfg": True, "return_as": ra, "use_with": uw}, "timeout": 900,
+                    "params": {"kill_cfg": True, "return_as": ra, "use_with": uw, "K": 1 if tier == "quick" else 2},
+                    "timeout": 900 if tier == "quick" else 3400,
                     "bounds": "3 calls (4, 3, 2 tasks); the worker running batch 0..7 dies, or a worker dies while idle after "
                               "call 0; one pre-emption anywhere; 2 picks"})
     return obs
